@@ -186,7 +186,9 @@ def check(col, prog, tier, profile, fixture=None):
                 for st in I.final_states:
                     ret = util.ret_term(st)
                     bit0 = ret[0] == "bin" and ret[1] in ("Gt", "Ne") and ret[3] == mk_int(0) and ret[2][0] == "bin" and ret[2][1] == "BitAnd" and ret[2][3] == mk_int(1)
-                    if not bit0:
+                    # an 8-bit output bound to `al` is exactly what setcc writes (0 or 1): the whole value may be tested
+                    whole_al = len(outs) == 1 and outs[0]["reg"].strip('"') == "al" and ret[0] == "bin" and ((ret[1] in ("Gt", "Ne") and ret[3] == mk_int(0)) or (ret[1] == "Eq" and ret[3] == mk_int(1))) and isinstance(ret[2], tuple) and ret[2] and ret[2][0] == "asmout"
+                    if not bit0 and not whole_al:
                         ok = False
                         why = "the result is %s: bits of eax above al are undefined after setcc al, only bit 0 may be used" % tstr(ret)
             elif ok and nm == "from":
@@ -366,13 +368,15 @@ def check(col, prog, tier, profile, fixture=None):
     def is_self(x):
         return x is not None and (x == p1 or x == ("ref", ("local", 1)) or (isinstance(x, tuple) and x and x[0] == "ref" and x[1] == ("constval", p1)))
 
+    zero_names = _zero_const_names(crate, A)
+
     def is_zero(x):
         if x is None or not isinstance(x, tuple) or not x:
             return False
         for s_ in [x] + list(subterms(x)):
-            if s_[0] == "assoc" and s_[2] == "ZERO":
+            if s_[0] == "assoc" and (s_[2] == "ZERO" or s_[2] in zero_names):
                 return True
-            if s_[0] == "cst" and str(s_[1]).endswith("::ZERO"):
+            if s_[0] == "cst" and (str(s_[1]).endswith("::ZERO") or str(s_[1]).rsplit("::", 1)[-1] in zero_names):
                 return True
             if s_[0] == "call" and str(s_[1]).endswith("::from") and s_[2] and ((s_[2][0][0] == "fconst" and s_[2][0][1] == 0.0) or (s_[2][0][0] in ("cst", "int") and "0" in str(s_[2][0][1]))):
                 return True
@@ -413,19 +417,51 @@ def check(col, prog, tier, profile, fixture=None):
                 cb = b
         if cb is None:
             raise Anchor("constant %s not found" % cname)
-        I = A(cb)
-        val = None
-        for st in I.final_states:
-            ret = util.ret_term(st)
-            if ret[0] == "agg" and ret[2] and ret[2][0][0] == "agg":
-                bs = [x[1] for x in ret[2][0][2] if x[0] == "int"]
-                if len(bs) == 10:
-                    val = _decode80(bs)
+        bs = _const_bytes(crate, A, cb)
+        val = _decode80(bs) if bs is not None else None
         key = "%s|decodes" % fk(cb)
         if val is not None and val == want:
             col.ok("X5" + sfx, cb.loc(), key, "bytes decode to %s" % want)
         else:
             col.violation("X5" + sfx, key, cb.loc(), "the byte pattern of f80::%s decodes to %s, not %s" % (cname, val, want))
+
+
+def _const_bytes(crate, A, cb, depth=0):
+    """the ten bytes of an f80 constant item, following references to other constant items of the crate
+    (`const ZERO: Self = Self::POSITIVE_ZERO`)"""
+    if cb is None or depth > 4:
+        return None
+    I = A(cb)
+    for st in I.final_states:
+        ret = util.ret_term(st)
+        if ret[0] == "agg" and ret[2] and ret[2][0][0] == "agg":
+            bs = [x[1] for x in ret[2][0][2] if x[0] == "int"]
+            if len(bs) == 10:
+                return bs
+        if ret[0] == "agg" and ret[2] and ret[2][0][0] == "repeat" and ret[2][0][1][0] == "int" and str(ret[2][0][2] if not isinstance(ret[2][0][2], tuple) else ret[2][0][2][1]) == "10":
+            return [ret[2][0][1][1]] * 10
+        if ret[0] in ("assoc", "cst"):
+            nm = ret[2] if ret[0] == "assoc" else str(ret[1]).rsplit("::", 1)[-1]
+            for b in crate.bodies:
+                if "Const" in str(b.kind) and b.name == nm and b.key != cb.key:
+                    r = _const_bytes(crate, A, b, depth + 1)
+                    if r is not None:
+                        return r
+    return None
+
+
+def _zero_const_names(crate, A):
+    """names of the crate's f80 constant items whose bytes decode to +0.0"""
+    out = set()
+    for b in crate.bodies:
+        if "Const" in str(b.kind):
+            try:
+                bs = _const_bytes(crate, A, b)
+            except Exception:  # noqa: BLE001
+                bs = None
+            if bs is not None and _decode80(bs) == 0.0 and not (bs[9] & 0x80):
+                out.add(b.name)
+    return out
 
 
 _PRIM = {"lt": {"L"}, "le": {"L", "E"}, "gt": {"G"}, "ge": {"G", "E"}, "eq": {"E"}, "ne": {"L", "G", "U"}}
